@@ -213,7 +213,7 @@ def register(reg):
     C("fields.dict_field:DictProxy.copy", params={}, returns="ref:DictProxy", modifies=["fresh", "ncalls"],
       requires={"A.a-proxy-exists-only-for-a-typed-dict-field": "self.dict_field._use_proxy"},
       ensures={"C17.copy-is-a-new-typed-dict-with-the-same-entries": "fresh(result) and result is not self and exact_class(result, 'DictProxy') and result.cfg is self.cfg and result.dict_field is self.dict_field"
-                                                                   ' and forall("k:key", "has(result, k) == has(self, k) and get(result, k) == get(self, k)")',
+                                                                   ' and forall("k:key", "has(result, k) == has(self, k) and implies(has(self, k), get(result, k) == get(self, k))")',
                "C13.copy-changes-nothing": "heap_unchanged()"},
       raises={"C13.copy-changes-nothing": "heap_unchanged()"})
     reg.refine("fields.dict_field:DictField._validate", "core:Field._validate",
